@@ -6,7 +6,7 @@ import os
 import re
 
 import common
-from common import (HARNESS, Infra, go_test, harness_overlay, read_ndjson, run_tlc, write_ndjson)
+from common import (HARNESS, Infra, go_test, harness_overlay, load_known, read_ndjson, run_tlc, write_ndjson)
 
 PKG = "internal/index/manager"
 
@@ -236,7 +236,14 @@ MC = {
     "C12": [("files", {"TagNames": '{"tag/a"}', "ConvNames": "{}", "MaxCalls": 3, "MaxViews": 1, "Menu": '"files"', "Invalid": "FALSE"},
              ["ViewComplete", "OneIdPerConn", "NoUseAfterFree", "NeverStuck"])],
     "C16": [("conv", {"TagNames": '{"tag/a"}', "ConvNames": '{"cv"}', "MaxCalls": 3, "MaxViews": 0, "Menu": '"conv"', "Invalid": "FALSE"},
-             ["ConvFresh", "ConvEventually", "DetachStops", "NeverStuck", "FlagsMatchJobs"])],
+             ["ConvFreshAtRest", "ConvEventually", "NeverStuck", "FlagsMatchJobs"])],
+}
+
+# Invariants the faithful model is known to violate: each is a recorded known finding (KNOWN_FINDINGS.txt) that exists at design
+# level.  TLC must FIND the counterexample (otherwise the model no longer describes the code as found: machinery error).
+MC_EXPECTED = {
+    "C16": [("conv", {"TagNames": '{"tag/a"}', "ConvNames": '{"cv"}', "MaxCalls": 3, "MaxViews": 0, "Menu": '"conv"', "Invalid": "FALSE"},
+             {"ConvFresh": "C16.ConvFresh@ConvCompute", "DetachStops": "C16.DetachStops@ImportDone"})],
 }
 
 
@@ -276,6 +283,19 @@ def model_check(ctx, pid):
                         % (res.invariant_violated or "temporal property", name, res.out[-6000:]))
         notes.append({"config": name, "distinct": res.distinct, "generated": res.generated,
                       "invariants": invs, "violated_in_model": res.invariant_violated, "complete": res.finished and not res.invariant_violated})
+    findings, _ = load_known()
+    for name, consts, expected in MC_EXPECTED.get(pid, []):
+        for inv, key in expected.items():
+            if (pid, key) not in findings:
+                raise Infra("MC_EXPECTED names %s which is not a known finding" % key)
+            cfg = os.path.join(ctx.scratch, "ManagerMC_%s_%s_%s.cfg" % (pid, name, inv))
+            with open(cfg, "w") as fh:
+                fh.write(mc_config(name, consts, [inv]))
+            res = run_tlc(ctx, "ManagerMC", os.path.basename(cfg), files=[cfg], workers=12, timeout=900)
+            if res.error or res.invariant_violated != [inv]:
+                raise Infra("the model was expected to reproduce known finding %s (invariant %s, configuration %s) but TLC says:\n%s"
+                            % (key, inv, name, res.out[-3000:]))
+            notes.append({"config": name, "invariant": inv, "violated_in_model_as_expected": key, "distinct_until_found": res.distinct})
     return total_d, total_g, notes
 
 
